@@ -121,7 +121,26 @@ fn check_str_roundtrip(x: &[u8], rng: &mut Rng, rep: &mut Report) {
                 format!("decode(encode({})) at prefix {} = {:?}, {} bytes left", hex_short(x, 16), size, other.map(|v| hex_short(&v, 16)), rd.len()),
                 case,
             ),
-            Err(p) => viol(rep, "string-decode-panics", format!("{} at {}", p.msg, p.loc), case),
+            Err(p) => {
+                viol(rep, "string-decode-panics", format!("{} at {}", p.msg, p.loc), case);
+                continue;
+            }
+        }
+        // ... and from a buffer in two pieces
+        if buf.len() >= 2 {
+            let k = 1 + rng.usize(buf.len() - 1);
+            let mut two = bytes::Buf::chain(&buf[..k], &buf[k..]);
+            rep.count("str_decode_over_two_piece_buffer");
+            match crate::panics::catch(|| hs::decode(size, &mut two)) {
+                Ok(Ok(v)) if v == x && !bytes::Buf::has_remaining(&two) => {}
+                Ok(other) => viol(
+                    rep,
+                    "string-decode-depends-on-buffer-layout",
+                    format!("{} (prefix {}) cut after {} octets decodes to {:?}, {} bytes left", hex_short(&buf, 24), size, k, other.map(|v| hex_short(&v, 16)), bytes::Buf::remaining(&two)),
+                    json!({"string": hex_short(x, 32), "len": x.len(), "prefix": size, "cut": k}),
+                ),
+                Err(p) => viol(rep, "string-decode-panics", format!("{} at {}", p.msg, p.loc), json!({"string": hex_short(x, 32), "prefix": size, "cut": k})),
+            }
         }
     }
 }
@@ -212,6 +231,37 @@ fn check_int_decode(size: u8, bytes: &[u8], rep: &mut Report) {
         Ok(g) => g,
     };
     let consumed = bytes.len() - rd.len();
+    // the same bytes handed over as a buffer in two pieces (`Buf` makes no promise that a value
+    // lies in one chunk): same result, same number of bytes taken, for every cut
+    if bytes.len() <= 12 {
+        for k in 1..bytes.len() {
+            let mut two = bytes::Buf::chain(&bytes[..k], &bytes[k..]);
+            rep.count("int_decode_over_two_piece_buffer");
+            match crate::panics::catch(|| hi::decode(size, &mut two)) {
+                Err(p) => {
+                    viol(rep, "int-decode-panics", format!("prefix {} bytes {} cut after {}: {} at {}", size, hex(bytes), k, p.msg, p.loc), case.clone());
+                    return;
+                }
+                Ok(g2) => {
+                    let consumed2 = bytes.len() - bytes::Buf::remaining(&two);
+                    let same = match (&got, &g2) {
+                        (Ok(a), Ok(b)) => a == b && consumed == consumed2,
+                        (Err(_), Err(_)) => true,
+                        _ => false,
+                    };
+                    if !same {
+                        viol(
+                            rep,
+                            "int-decode-depends-on-buffer-layout",
+                            format!("prefix {} bytes {}: contiguous {:?} ({} B taken), cut after {} octets {:?} ({} B taken)", size, hex(bytes), got.as_ref().ok(), consumed, k, g2.as_ref().ok(), consumed2),
+                            case.clone(),
+                        );
+                        return;
+                    }
+                }
+            }
+        }
+    }
     match (expect, got) {
         (Err(_), Err(_)) => rep.count("int_truncated_rejected"),
         (Err(_), Ok((f, v))) => viol(
